@@ -1,0 +1,19 @@
+//go:build verif
+
+package mp4
+
+import "sort"
+
+// VerifC01BoxTypes returns the box types registered with the reader-path decoders and with the
+// SliceReader-path decoders (sorted). Used by the verification harness for coverage accounting only.
+func VerifC01BoxTypes() (reader []string, sr []string) {
+	for k := range decoders {
+		reader = append(reader, k)
+	}
+	for k := range decodersSR {
+		sr = append(sr, k)
+	}
+	sort.Strings(reader)
+	sort.Strings(sr)
+	return reader, sr
+}
